@@ -271,6 +271,12 @@ func (m *Machine) call(caller *frame, pos token.Pos, fn Value, args []Value) Val
 func (m *Machine) callSSA(caller *frame, pos token.Pos, fn *ssa.Function, args []Value, env []Value) Value {
 	if fn.Parent() == nil {
 		name := fn.String()
+		if m.path.cli != nil {
+			if ext := cliExternals[name]; ext != nil {
+				m.stubsHit[name]++
+				return ext(m, caller, args)
+			}
+		}
 		if ext := externals[name]; ext != nil {
 			m.stubsHit[name]++
 			return ext(m, caller, args)
